@@ -77,3 +77,30 @@ old = json.load(open(p))
 old['globals'] = globs
 old['_comment_globals'] = 'module-level names the rules were written against; a module-level name that is NOT listed and is bound once to a literal is a named constant, written out at its uses (sa/consts.py)'
 json.dump(old, open(p, 'w'), indent=0, ensure_ascii=False)
+# parameter names per unit (a parameter that is NOT listed is new: rules may read the function with it at its default when no library caller passes anything else)
+params = {}
+for fn_ in sorted(os.listdir(os.path.join(root, 'bubus'))):
+    if not fn_.endswith('.py'):
+        continue
+    rel = f'bubus/{fn_}'
+    tree = ast.parse(open(os.path.join(root, rel), encoding='utf-8').read())
+    def recp(body, prefix):
+        for st in body:
+            if isinstance(st, FuncNode):
+                qn = f'{prefix}{st.name}'
+                a = st.args
+                params[f'{rel}::{qn}'] = [x.arg for x in a.posonlyargs + a.args + a.kwonlyargs] + ([a.vararg.arg] if a.vararg else []) + ([a.kwarg.arg] if a.kwarg else [])
+                recp([n for n in ast.walk(st) if isinstance(n, FuncNode) and n is not st and any(n is c_ for c_ in ast.iter_child_nodes(st))] , f'{qn}.')
+                for sub in ast.iter_child_nodes(st):
+                    if isinstance(sub, (ast.If, ast.Try, ast.With, ast.For, ast.While)):
+                        recp([n for n in ast.walk(sub) if isinstance(n, FuncNode)], f'{qn}.')
+            elif isinstance(st, ast.ClassDef):
+                recp(st.body, f'{st.name}.')
+            elif isinstance(st, (ast.If, ast.Try)):
+                for f in ('body', 'orelse', 'finalbody'):
+                    recp(getattr(st, f, []) or [], prefix)
+    recp(tree.body, '')
+old = json.load(open(p))
+old['params'] = params
+old['_comment_params'] = 'parameter names (per unit) the rules were written against'
+json.dump(old, open(p, 'w'), indent=0, ensure_ascii=False)
